@@ -55,9 +55,25 @@ PRIORS = [
 def ambiguous(op, bound_names, args):
     """zones where the statement is silent (DESIGN §6): a symbolic axis mentioning a name that is
     not bound yet / a hole that is not an argument."""
-    names = gen_dims.sym_names(op["dims"])
     holes = gen_dims.hole_names(op["dims"])
-    return bool(names - set(bound_names)) or bool(holes - set(args or {}))
+    if holes - set(args or {}):
+        return True
+    names = gen_dims.sym_names(op["dims"])
+    if not (names - set(bound_names)):
+        return False
+    # names bound by the same walk before the symbolic axis is reached count as bound: decided here only for the plain
+    # case (no multi-axis specifier, rank equal to the number of axes); a `#name` axis of size 1 binds nothing
+    toks = op["dims"].split()
+    if len(toks) != len(op["shape"]) or any(t == "..." or t.lstrip("#?_").startswith("*") or "=" in t for t in toks):
+        return True
+    seen = set(bound_names)
+    for t, size in zip(toks, op["shape"]):
+        if gen_dims.sym_names(t) - seen:
+            return True
+        base = t.lstrip("#")
+        if base in gen_dims.NAMES and not (t.startswith("#") and size == 1):
+            seen.add(base)
+    return False
 
 
 def compare(out, hist, args, got, want, tag, use_numpy=False):
